@@ -37,7 +37,7 @@ use std::collections::{BTreeMap, BTreeSet, HashMap};
 
 use graph_engine::{Direction, GraphError};
 use nverif::*;
-use query_router::{QueryResult, QueryRouter};
+use query_router::{QueryResult, QueryRouter, RouterError};
 use relational_engine::{Column, ColumnType, Condition, RelationalError, Schema, Value};
 use serde_json::json;
 use tensor_blob::{BlobConfig, BlobStore};
@@ -90,6 +90,8 @@ enum Op {
 /// checkpoint number `code`, code >= 1000 = the proper name `c<code-1000>`
 const NAME0: u64 = 1000;
 /// name codes of the auto-checkpoints `create_auto` makes (`auto-before-<operation>`)
+/// the one compared token for a text destructive statement the router refused (Error canonicalisation, rule 2)
+const TEXT_REFUSED: &str = "err refused";
 const AUTO_DELETE: u64 = NAME0 + 60;
 const AUTO_NODE_DELETE: u64 = NAME0 + 61;
 const AUTO_EMBED_DELETE: u64 = NAME0 + 62;
@@ -203,14 +205,38 @@ fn rel_err(e: &RelationalError) -> String {
         RelationalError::TableNotFound(_) => "err notfound".into(),
         RelationalError::TableAlreadyExists(_) | RelationalError::IndexAlreadyExists { .. } => "err exists".into(),
         RelationalError::StorageError(_) => "err storage".into(),
-        other => format!("err other:{other:?}"),
+        other => format!("err other:{}", vname(&other)),
+    }
+}
+/// Error canonicalisation (BUILDING.md): the name of the error VARIANT (first identifier of its
+/// Debug rendering), never its message text — fall-back tokens are `err other:<Variant>`.
+fn vname<T: std::fmt::Debug>(e: &T) -> String {
+    format!("{e:?}").chars().take_while(|c| c.is_alphanumeric() || *c == '_').collect()
+}
+/// `RouterError` flattens every engine error into `<Engine>Error(String)`: the engine is structured,
+/// the reason is only text. The reason is read as loosely as the repo's own tests pin the wording
+/// (relational_engine/src/tests.rs `test_error_display_*`: "Table not found", "Storage error";
+/// query_router lib tests / cursor.rs: "not found"), and a message that matches neither keyword is
+/// NOT given another specific reason: it degrades to `None` = "refused, reason unknown" (rule 3).
+fn router_reason(e: &RouterError) -> Option<&'static str> {
+    let m = match e {
+        RouterError::RelationalError(m) | RouterError::GraphError(m) | RouterError::VectorError(m) | RouterError::CheckpointError(m) => m.to_lowercase(),
+        RouterError::NotFound(_) => return Some("notfound"),
+        _ => return None,
+    };
+    if m.contains("storage error") {
+        Some("storage")
+    } else if m.contains("not found") {
+        Some("notfound")
+    } else {
+        None
     }
 }
 fn rel_err_q(e: &RelationalError) -> String {
     match e {
         RelationalError::TableNotFound(_) => "err:notfound".into(),
         RelationalError::StorageError(_) => "err:storage".into(),
-        other => format!("err:other:{other:?}"),
+        other => format!("err:other:{}", vname(other)),
     }
 }
 
@@ -302,38 +328,38 @@ impl Sys {
             },
             Op::GNode(l) => match g.create_node(format!("L{l}"), HashMap::new()) {
                 Ok(id) => format!("id {id}"),
-                Err(e) => format!("err other:{e:?}"),
+                Err(e) => format!("err other:{}", vname(&e)),
             },
             Op::GEdge(a, b) => match g.create_edge(*a, *b, "E", HashMap::new(), true) {
                 Ok(id) => format!("id {id}"),
                 Err(GraphError::NodeNotFound(_)) => "err notfound".into(),
-                Err(e) => format!("err other:{e:?}"),
+                Err(e) => format!("err other:{}", vname(&e)),
             },
             Op::GDelN(i) => match g.delete_node(*i) {
                 Ok(()) => "ok".into(),
                 Err(GraphError::NodeNotFound(_)) => "err notfound".into(),
-                Err(e) => format!("err other:{e:?}"),
+                Err(e) => format!("err other:{}", vname(&e)),
             },
             Op::GDelE(i) => match g.delete_edge(*i) {
                 Ok(()) => "ok".into(),
                 Err(GraphError::EdgeNotFound(_)) => "err notfound".into(),
-                Err(e) => format!("err other:{e:?}"),
+                Err(e) => format!("err other:{}", vname(&e)),
             },
             Op::VPut(k, vec) => match v.store_embedding(&format!("e{k}"), vec.iter().map(|x| *x as f32).collect()) {
                 Ok(()) => "ok".into(),
                 Err(VectorError::EmptyVector) => "err bad".into(),
-                Err(e) => format!("err other:{e:?}"),
+                Err(e) => format!("err other:{}", vname(&e)),
             },
             Op::VDel(k) => match v.delete_embedding(&format!("e{k}")) {
                 Ok(()) => "ok".into(),
                 Err(VectorError::NotFound(_)) => "err notfound".into(),
-                Err(e) => format!("err other:{e:?}"),
+                Err(e) => format!("err other:{}", vname(&e)),
             },
             Op::VBuild => match v.build_and_cache_index(HNSWConfig::default()) {
                 Ok(()) => "ok".into(),
                 Err(VectorError::NotFound(_)) => "err notfound".into(),
                 Err(VectorError::DimensionMismatch { .. }) => "err bad".into(),
-                Err(e) => format!("err other:{e:?}"),
+                Err(e) => format!("err other:{}", vname(&e)),
             },
             Op::KPut(cls, k, x, e) => {
                 let mut t = TensorData::new();
@@ -345,14 +371,14 @@ impl Sys {
                 }
                 match self.store().put(Self::raw_key(*cls, *k), t) {
                     Ok(()) => "ok".into(),
-                    Err(e) => format!("err other:{e:?}"),
+                    Err(e) => format!("err other:{}", vname(&e)),
                 }
             }
             Op::KDel(cls, k) => match self.store().delete(&Self::raw_key(*cls, *k)) {
                 Ok(()) => "ok".into(),
                 Err(tensor_store::TensorStoreError::NotFound(_)) => "err notfound".into(),
                 #[allow(unreachable_patterns)]
-                Err(e) => format!("err other:{e:?}"),
+                Err(e) => format!("err other:{}", vname(&e)),
             },
             Op::Ckpt(_) | Op::CkptReal(_) | Op::CkAll | Op::Rollback(_) | Op::CkDel(_) | Op::CkTop(_) | Op::TDel(..) | Op::TNodeDel(_) | Op::TEmbDel(_) => {
                 unreachable!("handled by the stream")
@@ -361,7 +387,7 @@ impl Sys {
     }
 
     /// a destructive statement through the router text API; the answer in the engine ops' terms
-    fn text_destructive(&self, op: &Op) -> String {
+    fn text_destructive(&self, op: &Op) -> (String, &'static str) {
         let (stmt, is_count) = match op {
             Op::TDel(t, k) => (format!("DELETE FROM {} WHERE k = {k}", Self::tname(*t)), true),
             Op::TNodeDel(i) => (format!("NODE DELETE {i}"), false),
@@ -371,23 +397,21 @@ impl Sys {
         match self.router.execute_parsed(&stmt) {
             Ok(QueryResult::Count(n)) => {
                 if is_count {
-                    format!("count {n}")
+                    (format!("count {n}"), "")
                 } else {
-                    "ok".into()
+                    ("ok".into(), "")
                 }
             }
-            Ok(other) => format!("err other:{other:?}"),
-            Err(e) => {
-                let s = e.to_string();
-                let l = s.to_lowercase();
-                if l.contains("storage error") {
-                    "err storage".into()
-                } else if l.contains("not found") {
-                    "err notfound".into()
-                } else {
-                    format!("err other:{s}")
-                }
+            Ok(other) => (format!("err other:{}", vname(&other)), "other"),
+            // rule 2: the three engines' refusals arrive as `<Engine>Error(String)`; nothing in C08
+            // depends on WHY a text DELETE was refused (the image and the checkpoint listing are
+            // compared after every statement), so ONE token `err refused` is compared (the model's
+            // `err notfound` / `err storage` are mapped to it at comparison time, see `TEXT_REFUSED`)
+            // and the reason read from the text is kept as a coverage statistic only.
+            Err(e @ (RouterError::RelationalError(_) | RouterError::GraphError(_) | RouterError::VectorError(_))) => {
+                (TEXT_REFUSED.into(), router_reason(&e).unwrap_or("unclassified"))
             }
+            Err(e) => (format!("err other:{}", vname(&e)), "other"),
         }
     }
 
@@ -416,18 +440,16 @@ impl Sys {
                     format!("ok:{}", items.into_iter().map(|p| p.1).collect::<Vec<_>>().join(","))
                 }
                 Ok(other) => format!("?{other:?}"),
-                Err(e) => {
-                    let l = e.to_string().to_lowercase();
-                    if l.contains("storage error") {
-                        "err:storage".into()
-                    } else if l.contains("not found") {
-                        "err:notfound".into()
-                    } else {
-                        format!("err:other:{e}")
-                    }
-                }
+                // rule 3: this ORACLE (text answer = engine answer) needs the reason and the router gives
+                // only text; keyword match as loose as the repo's tests pin it (`router_reason`), and an
+                // unrecognised relational message degrades to "refused", which agrees with any engine error
+                Err(e @ RouterError::RelationalError(_)) => match router_reason(&e) {
+                    Some(r) => format!("err:{r}"),
+                    None => "err:refused".into(),
+                },
+                Err(e) => format!("err:other:{}", vname(&e)),
             };
-            if &got != scan {
+            if &got != scan && !(got == "err:refused" && scan.starts_with("err:") && !scan.starts_with("err:other")) {
                 out.push(format!("{q}: text {got} / engine {scan}"));
             }
         }
@@ -573,8 +595,8 @@ impl Sys {
                 self.ck_meta.insert(n, (name, real_ts.unwrap_or(ts)));
                 (n, format!("id {n}"))
             }
-            Ok(other) => (n, format!("err other:{other:?}")),
-            Err(e) => (n, format!("err other:{e:?}")),
+            Ok(other) => (n, format!("err other:{}", vname(&other))),
+            Err(e) => (n, format!("err other:{}", vname(&e))),
         }
     }
 
@@ -586,7 +608,7 @@ impl Sys {
         let store = self.store().clone();
         let bytes = match store.snapshot_bytes() {
             Ok(b) => b,
-            Err(e) => return (n, format!("err other:{e:?}")),
+            Err(e) => return (n, format!("err other:{}", vname(&e))),
         };
         let mut state = CheckpointState::new(format!("hid-{n}"), name_s, bytes, CheckpointMetadata::default());
         state.created_at = ts;
@@ -603,7 +625,7 @@ impl Sys {
                 self.ck_meta.insert(n, (name, ts));
                 (n, format!("id {n}"))
             }
-            Err(e) => (n, format!("err other:{e:?}")),
+            Err(e) => (n, format!("err other:{}", vname(&e))),
         }
     }
 
@@ -611,14 +633,13 @@ impl Sys {
         let target = self.code_str(code);
         match self.router.execute_parsed(&format!("ROLLBACK TO '{target}'")) {
             Ok(_) => "ok".into(),
-            Err(e) => {
-                let s = e.to_string();
-                if s.to_lowercase().contains("not found") {
-                    "err notfound".into()
-                } else {
-                    format!("err other:{s}")
-                }
-            }
+            // the model knows ONE refusal of ROLLBACK TO (`err notfound`: the target resolves to no listed
+            // checkpoint) and the router reports every checkpoint-side refusal as `CheckpointError(String)`:
+            // by variant, not by the wording "not found" (rule 2; the target-resolution oracle only needs
+            // ok / refused, and a restore that fails for another reason leaves an image the model's
+            // unchanged image is compared with right after)
+            Err(RouterError::CheckpointError(_)) => "err notfound".into(),
+            Err(e) => format!("err other:{}", vname(&e)),
         }
     }
 
@@ -633,7 +654,7 @@ impl Sys {
         match r {
             Ok(()) => "ok".into(),
             Err(tensor_checkpoint::CheckpointError::NotFound(_)) => "err notfound".into(),
-            Err(e) => format!("err other:{e}"),
+            Err(e) => format!("err other:{}", vname(&e)),
         }
     }
 
@@ -1392,7 +1413,7 @@ fn run_case(ctx: &mut Ctx, m: &mut Model, stream: &str, mode: Mode, max: usize, 
                         }
                         (nats(&ids), format!("cktop {n} {}", nats(&ids)))
                     }
-                    Err(e) => (format!("err other:{e}"), format!("cktop {n} -")),
+                    Err(e) => (format!("err other:{}", vname(&e)), format!("cktop {n} -")),
                 }
             }
             Op::TDel(..) | Op::TNodeDel(_) | Op::TEmbDel(_) => {
@@ -1421,7 +1442,11 @@ fn run_case(ctx: &mut Ctx, m: &mut Model, stream: &str, mode: Mode, max: usize, 
                     ctx.rep.hit("auto_checkpoint:at_retention_limit");
                 }
                 let t_before = wall_secs();
-                let ans = sys.text_destructive(op);
+                let (ans, why) = sys.text_destructive(op);
+                if !why.is_empty() {
+                    // the refusal reason as the message words it: a coverage statistic, never compared
+                    ctx.rep.hit(&format!("text_destructive:refused_{why}"));
+                }
                 let listed_after = sys.listing();
                 let fresh: Vec<(String, String, u64)> =
                     listed_after.iter().filter(|c| !known.contains(&c.0)).cloned().collect();
@@ -1522,7 +1547,7 @@ fn run_case(ctx: &mut Ctx, m: &mut Model, stream: &str, mode: Mode, max: usize, 
                         }
                         (nats(&ids), format!("ckall {}", nats(&ids)))
                     }
-                    Err(e) => (format!("err other:{e}"), "ckall -".into()),
+                    Err(e) => (format!("err other:{}", vname(&e)), "ckall -".into()),
                 }
             }
             Op::Rollback(code) => {
@@ -1705,6 +1730,8 @@ fn run_case(ctx: &mut Ctx, m: &mut Model, stream: &str, mode: Mode, max: usize, 
             }
         }
         let mo = m.ask(&model_line);
+        // a refused text DELETE / NODE DELETE / EMBED DELETE is compared as ONE token (see `text_destructive`)
+        let mo = if matches!(op, Op::TDel(..) | Op::TNodeDel(_) | Op::TEmbDel(_)) && (mo == "err notfound" || mo == "err storage") { TEXT_REFUSED.to_string() } else { mo };
         let tr = trace.clone();
         if !ctx.rep.compare(stream, || json!({"ops": tr, "max": max}), &imp, &mo) {
             agreed = false;
@@ -2210,7 +2237,7 @@ fn stream_store_raw(ctx: &mut Ctx, m: &mut Model, rng: &Rng, cases: usize) {
                 }
                 let imp = match store.put(Sys::raw_key(cls, k), t) {
                     Ok(()) => "ok".to_string(),
-                    Err(e) => format!("err other:{e:?}"),
+                    Err(e) => format!("err other:{}", vname(&e)),
                 };
                 ctx.rep.hit("raw:put");
                 (imp, Op::KPut(cls, k, x, e).line())
@@ -2234,7 +2261,7 @@ fn stream_store_raw(ctx: &mut Ctx, m: &mut Model, rng: &Rng, cases: usize) {
                 let id = r.below(snaps.len() as u64) as usize;
                 let imp = match store.restore_from_bytes(&snaps[id].0) {
                     Ok(()) => "ok".to_string(),
-                    Err(e) => format!("err other:{e:?}"),
+                    Err(e) => format!("err other:{}", vname(&e)),
                 };
                 ctx.rep.hit("raw:restore");
                 let now = raw_image(&store);
